@@ -268,6 +268,20 @@ func (p *FloatingIPPlugin) unassignIPsOfKey(key, when string) error {
 	return nil
 }
 
+// ipsOfKeyOnNode tells if any ip of key is still recorded on a node
+func (p *FloatingIPPlugin) ipsOfKeyOnNode(key string) bool {
+	ipInfos, err := p.ipam.ByKeyAndIPRanges(key, nil)
+	if err != nil {
+		return false
+	}
+	for _, ipInfo := range ipInfos {
+		if ipInfo != nil && ipInfo.NodeName != "" {
+			return true
+		}
+	}
+	return false
+}
+
 func (p *FloatingIPPlugin) Release(r *ReleaseRequest) error {
 	caller := "by " + getCaller()
 	k := r.KeyObj
@@ -290,7 +304,8 @@ func (p *FloatingIPPlugin) Release(r *ReleaseRequest) error {
 		return fmt.Errorf("pod %s_%s (uid %s) is running", k.Namespace, k.PodName, fip.PodUid)
 	}
 	glog.Infof("%s is not running, %s, %s", k.KeyInDB, reason, caller)
-	if p.cloudProvider != nil && fip.NodeName != "" {
+	// another ip of the key may still be recorded on a node even if this one is not (a bind which failed half way)
+	if p.cloudProvider != nil && (fip.NodeName != "" || p.ipsOfKeyOnNode(k.KeyInDB)) {
 		// For tapp and sts pod, nodeName will be updated to empty after unassigning
 		if err := p.unassignIPsOfKey(k.KeyInDB, caller); err != nil {
 			return err
